@@ -402,7 +402,7 @@ func (ctx drawContext) drawBackgroundDefaut(bg *bo.Background) {
 // border box of the background, but only to the painting area
 // clipBox=true bleed=nil marks=()
 func (ctx drawContext) drawBackground(bg *bo.Background, clipBox bool, bleed bo.Bleed, marks pr.Marks) {
-	if bg == nil {
+	if bg == nil || len(bg.Layers) == 0 { // no layer : a page with 'visibility: hidden'
 		return
 	}
 
